@@ -175,12 +175,24 @@ def reset_globals():
         _BASE['props'] = {a.name: dict(a.properties) for a in pygaps.ADSORBATE_LIST}
     pygaps.ADSORBATE_LIST[:] = _BASE['ads']
     pygaps.MATERIAL_LIST[:] = _BASE['mat']
+    import copy
+    if 'attrs' not in _BASE:
+        # what every adsorbate object holds right after import (attributes created by __init__ included)
+        _BASE['attrs'] = {id(a): {k: (copy.deepcopy(v) if isinstance(v, (dict, list, set, tuple)) else v) for k, v in vars(a).items()
+                                  if k not in ('_state', '_backend_mode')} for a in pygaps.ADSORBATE_LIST}
     for a in pygaps.ADSORBATE_LIST:
         a._state = None
         a._backend_mode = None
+        base_attrs = _BASE['attrs'].get(id(a), {})
         for k in list(vars(a)):
-            if k not in ('name', 'alias', 'properties', '_state', '_backend_mode'):
-                delattr(a, k)       # anything else an instance grew is cache
+            if k in ('_state', '_backend_mode'):
+                continue
+            if k not in base_attrs:
+                delattr(a, k)       # anything an instance grew after import is cache
+        cur = vars(a)
+        for k, v in base_attrs.items():
+            if k not in cur or type(cur[k]) is not type(v) or cur[k] != v:
+                setattr(a, k, copy.deepcopy(v) if isinstance(v, (dict, list, set, tuple)) else v)
     models_thickness._LOADED.clear()
     psd_kernel._LOADED.clear()
     import sys
@@ -346,6 +358,12 @@ def build_queries(tier):
     add('N2.enthalpy_vaporisation(p=2e5)', lambda w: w['p'].adsorbate.enthalpy_vaporisation(press=2e5), True)
     add('N2.molar_mass', lambda w: w['p'].adsorbate.molar_mass(), True)
     add('N2.p_triple/critical', lambda w: (w['p'].adsorbate.p_triple(), w['p'].adsorbate.p_critical(), w['p'].adsorbate.t_critical()), True)
+    # the optional `calculate` flag: stored value vs backend value are two different queries (either may be refused)
+    for meth, args in (('p_triple', ()), ('t_triple', ()), ('p_critical', ()), ('t_critical', ()), ('molar_mass', ()), ('saturation_pressure', (77.355,)),
+                       ('liquid_density', (77.355,)), ('surface_tension', (77.355,))):
+        add(f'N2.{meth}(calculate=False)', lambda w, meth=meth, args=args: getattr(w['p'].adsorbate, meth)(*args, calculate=False), True)
+        if f'N2.{meth}' not in ' '.join(Q) and meth in ('p_triple', 't_triple', 'p_critical', 't_critical'):
+            add(f'N2.{meth}()', lambda w, meth=meth: getattr(w['p'].adsorbate, meth)(), True)
     add('convert-free unit read: loading(volume_liquid)', lambda w: w['p'].loading(loading_basis='volume_liquid', loading_unit='cm3'), True)
     add('pressure(relative)', lambda w: w['p'].pressure(pressure_mode='relative'), True)
     # model isotherm accessors
